@@ -58,7 +58,33 @@ func ruleReadErrorCloses(c *core.Ctx, a *epAnchors) {
 	}
 	read := rs.call
 	rin := read.(ssa.Instruction)
-	isErr := rs.isErr
+	// the error of the read, or a loop variable that holds it (`for readErr == nil
+	// { readErr = msg.Read(...) }`): a phi of the read's error and of the nil it
+	// is initialised with before the loop
+	afterRead := core.ReachFrom(core.After(rin), nil, nil)
+	var errPhi func(v ssa.Value, depth int) bool
+	errPhi = func(v ssa.Value, depth int) bool {
+		p, ok := core.Canon(v).(*ssa.Phi)
+		if !ok || depth > 3 {
+			return false
+		}
+		n := 0
+		for k, e := range p.Edges {
+			pred := p.Block().Preds[k]
+			switch {
+			case rs.isErr(e):
+				n++
+			case core.Canon(e) == ssa.Value(p):
+			case core.IsNilConst(e) && len(pred.Instrs) > 0 && !afterRead.Has(pred.Instrs[len(pred.Instrs)-1]):
+			case errPhi(e, depth+1):
+				n++
+			default:
+				return false
+			}
+		}
+		return n > 0
+	}
+	isErr := func(v ssa.Value) bool { return rs.isErr(v) || errPhi(v, 0) }
 	var closes []ssa.Instruction
 	for _, call := range core.Calls(fn) {
 		if core.IsCallTo(call, a.epCloseWith) {
@@ -290,13 +316,13 @@ func ruleShutdown(c *core.Ctx, a *epAnchors) {
 
 // clientCall gathers the anchors of bus.client.Call.
 type clientCall struct {
-	fn                  *ssa.Function
-	make                ssa.CallInstruction // MakeHandler
-	send                ssa.CallInstruction // first EndPoint.Send
-	filter, closer      *ssa.Function
-	subst               map[*ssa.Parameter]ssa.Value // factory parameters of the filter -> arguments in Call
-	queue               ssa.Value
-	site                handlerSite
+	fn             *ssa.Function
+	make           ssa.CallInstruction // MakeHandler
+	send           ssa.CallInstruction // first EndPoint.Send
+	filter, closer *ssa.Function
+	subst          map[*ssa.Parameter]ssa.Value // factory parameters of the filter -> arguments in Call
+	queue          ssa.Value
+	site           handlerSite
 }
 
 func getClientCall(c *core.Ctx, a *epAnchors, rule string) *clientCall {
@@ -341,7 +367,10 @@ func ruleHandlerBeforeSend(c *core.Ctx, a *epAnchors, rule string) {
 		rule, "bus.client.Call/register-then-send", cc.send.Pos(),
 		"MakeHandler dominates Send", "the call message can be sent before the reply handler is registered: a fast reply is dropped and the caller hangs")
 	// on send failure the handler is removed
-	isErr := func(v ssa.Value) bool { cr, _ := core.CallResult(v); return cr != nil && ssa.CallInstruction(cr) == cc.send }
+	isErr := func(v ssa.Value) bool {
+		cr, _ := core.CallResult(v)
+		return cr != nil && ssa.CallInstruction(cr) == cc.send
+	}
 	cut := core.CutEstablishing(core.Eq(isErr, core.IsNilConst))
 	isRemove := func(x ssa.Instruction) bool {
 		call, ok := x.(ssa.CallInstruction)
